@@ -238,6 +238,10 @@ def histories(ops, depth, quick_patterns, deep=True):
             yield from itertools.product(first, [('repair',)], sets, evs)
             yield from itertools.product(first, sets, [('repair',)], evs)
         # a loaded model, a failure inside validate_calcs, a write to an input, a read
+        # an entry point that fails half way, a write, a read
+        entries = [o for o in ops if o[0] in ('validate', 'validate_raise', 'trim')]
+        if quick_patterns:
+            yield from itertools.product(entries, sets, evs)
         vals = [o for o in ops if o[0] == 'validate_raise'] if quick_patterns else [o for o in ops if o[0] in ('validate', 'validate_raise')]
         yield from itertools.product(first, vals, sets, evs[-2:] if quick_patterns else evs)
 
@@ -315,6 +319,9 @@ def fault_targets(fam):
 
 def run(ctx):
     fams = family.curated()
+    # two independent roots below one output: a trim from the first root has to freeze the cells below the second
+    spec = family.S({'A1': 1, 'B1': 5, 'B2': '=B1*2', 'B3': '=B1+1', 'C1': '=A1+B2+B3'})
+    fams.append(dict(name='two_roots', spec=spec, ranges=['S!B1:B3'], unbounded=[], inputs=['S!A1', 'S!B1'], cells=W.all_cells(spec), tags=[]))
     jobs = []
     kinds = ['unknown', 'always', 'kth1', 'kth2', 'always-NameError', 'always-AssertionError', 'always-KeyError', 'always-RecursionError']
     modes = ['plain', 'iterative']
